@@ -17,6 +17,8 @@
 pub mod key_id_storage;
 pub mod key_storage;
 pub mod storage;
+#[cfg(feature = "verif-hooks")]
+pub mod verif_hooks;
 
 pub use key_id_storage::*;
 pub use key_storage::public_modules::*;
